@@ -161,7 +161,7 @@ def classify_occurrences(ctx, stmt, scope_src=SCOPE_PARAM, writer_local=None):
     for o in occs:
         if id(o) in res:
             continue
-        preds = [p.replace(' ', '') for p in stmt.where_predicates(o.scope)]
+        preds = [p.replace(' ', '') for p in stmt.where_predicates(o.scope) + stmt.inner_on_predicates(o.scope)]
         others = [x for x in real if x.scope == o.scope and x is not o]
         key_preds = [p_ for p_ in preds if p_ in (f'{o.alias}.rowid=?', f'?={o.alias}.rowid') or re.fullmatch(re.escape(o.alias) + r'\.rowid=:\w+', p_)]
         join_preds = [p_ for p_ in preds if p_ not in key_preds]
